@@ -302,6 +302,10 @@ class BaseKFACPreconditioner:
             # compute and only the gradient workers of a layer communicate on
             # that layer's gradient worker group.
             for name, layer in self._layers.values():
+                if layer.a_factor is None or layer.g_factor is None:
+                    # State saved before the first factor update: there is
+                    # nothing to invert yet.
+                    continue
                 if get_rank() == self._assignment.inv_worker(name, 'A'):
                     layer.compute_a_inv(damping=self.damping)
                 if (
